@@ -32,6 +32,15 @@ def cases(tier, seed, phase):
                     'backoff': qh.gen_backoff(rng, 5), 'sender': rng.random() < 0.8, 'factory': True,
                     'pools': rng.choice([[None, None]] * 7 + [[2, 2], [1, 2], [1, 1]])}
         yield mk
+    for j in range(200 if tier == 'quick' else 4000):
+        def mk(j=j):
+            rng = rng_for(seed, 'c01f', j)
+            nr = rng.choice([2, 3, 3, 4])
+            return {'backend': ['dict', 'disk', 'dict', 'cloud'][j % 4], 'rcpts': list(range(nr)),
+                    'outcomes': qh.gen_history(rng, nr, rng.randint(1, 4), rng.choice(['MQ', 'MQPT', 'MQT']), nreplies=2),
+                    'backoff': qh.gen_backoff(rng, 3), 'sender': True, 'factory': True, 'pools': [None, None],
+                    'store_fail': [rng.choice(['set_recipients_delivered', 'set_timestamp', 'increment_attempts', 'remove']), rng.choice([0, 0, 1])]}
+        yield mk
     for j in range(40 if tier == 'quick' else 800):
         def mk(j=j):
             rng = rng_for(seed, 'c01s', j)
